@@ -48,13 +48,24 @@ LEVEL_TEXT = {
  "C20": "seeded exploration; user Restore on the leader racing with Apply and membership changes, followed by a fault-free period",
 }
 
+LEVEL_TEXT["C19"] = ("seeded exploration of operation sequences (contiguous and gapped StoreLogs, rewrites after truncation, prefix/suffix/middle/whole DeleteRange, reads) against the real "
+                     "LogCache (capacity 1-8) over a reference backend that fails calls before or after they take effect, with up to two concurrent readers interleaved by the simulator at "
+                     "the backend calls; every answer must be one the backend alone could have given during the call")
+
 NOT_CLAIMED = {
  "C06": "check under construction (scenario S2: one real server, adversarial peers, crash/error sweep over every stable-store operation)",
  "C15": "check under construction (scenario S3: real FileSnapshotStore on the simulated file system)",
  "C16": "check under construction (scenario S3: real NetworkTransport on simulated streams)",
- "C19": "check under construction (scenario S3: real LogCache over a fault-injecting reference backend)",
 }
 
 PROFILES = {}
 for _p in ["C01", "C02", "C03", "C04", "C05", "C07", "C08", "C09", "C10", "C11", "C12", "C13", "C14", "C17", "C18", "C20"]:
     PROFILES[_p] = {"level": "exploration", "scenarios": [s1()], "level_text": LEVEL_TEXT[_p]}
+
+PROFILES["C19"] = {"level": "exploration", "level_text": LEVEL_TEXT["C19"],
+                   "scenarios": [{"scenario": "C19", "profile": "C19", "quick_runs": 60000, "quick_budget_s": 40, "thorough_runs": 5000000, "thorough_budget_s": 900}],
+                   "rule": "each evaluation is one generated operation history (5-60 operations quick, 20-200 thorough; capacity, index range, reader count, error rate and yield "
+                           "probability drawn per run). A run is non-trivial when it stored and read entries and at least one of: a backend error fired, a DeleteRange ran, a reader ran "
+                           "concurrently. Two runs are distinct when the hash of their operation log (operations with arguments and results) differs.",
+                   "components": {"real_code": ["log_cache.go"], "stubs": ["wrapped LogStore (reference map with injected errors before/after effect)"],
+                                  "replaced": ["goroutine scheduling at backend calls (seeded chooser)"]}}
